@@ -68,6 +68,7 @@ type GCase struct {
 	FreezeClient int       `json:"freeze_client,omitempty"`
 	FreezeAt     int       `json:"freeze_at,omitempty"`
 	Procs        int       `json:"procs,omitempty"`
+	ClockTape    []uint32  `json:"clock_tape,omitempty"`
 }
 
 type GJob struct {
@@ -149,6 +150,7 @@ func (e *Env) gensimTexts(nGen int, thorough bool) []GText {
 		GText{"imports", "package p\n\nimport \"fmt\"\nimport str \"strings\"\nimport \"os\"\nimport f \"fmt\"\nimport o2 \"os\"\nimport \"fmt\"\n\ntype T Peg {\n n int\n}\n\n# a header comment\nS <- <.> { fmt.Print(str.ToUpper(text)); f.Print(); _, _ = os.Args, o2.Args } S / !.\n"},
 		GText{"many-rules", manyRules(270)},
 		GText{"bad-action", hdr + "S <- 'a' { this is ( not go } T\nT <- 'b'\n"},
+		GText{"layered-9", layered(9)},
 		GText{"lr-mutual", hdr + "S <- A 'q' / C\nA <- C 'x'\nC <- A / 'z'\n"},
 		GText{"lr-indirect3", hdr + "S <- A\nA <- B 'a' / 'x'\nB <- C 'b' / 'y'\nC <- A 'c' / 'z'\n"},
 		GText{"lr-nullable-prefix", hdr + "S <- A !.\nA <- B? A 'x' / 'y'\nB <- 'b'*\n"},
@@ -225,6 +227,19 @@ func modulePackages(root string, start []string) []string {
 	return out
 }
 
+// layered: n layers of E_i <- E_i+1 '+' E_i / E_i+1, whose recursion check
+// visits the last layer 2^n times. Keep n small: the unchanged generator is
+// exponential in time AND memory here (16 layers: 3 minutes and 64 GB).
+func layered(n int) string {
+	var sb strings.Builder
+	sb.WriteString("package p\n\ntype T Peg {}\n\nStart <- E0 !.\n")
+	for i := 0; i < n; i++ {
+		fmt.Fprintf(&sb, "E%d <- E%d '+' E%d / E%d\n", i, i+1, i, i+1)
+	}
+	fmt.Fprintf(&sb, "E%d <- 'a' / '(' E0 ')' / Tail\nTail <- Tail 'x' / 'y'\n", n)
+	return sb.String()
+}
+
 // manyRules: more rules than a uint8 rule type can number.
 func manyRules(n int) string {
 	var sb strings.Builder
@@ -263,7 +278,7 @@ func buildGensim(e *Env, sc *Scratch, texts []GText, wantRace bool) (*gensimRig,
 	dirs := modulePackages(rig.wrepo, []string{"tree", "zzsim/frontend"})
 	for _, d := range dirs {
 		// statement-level yields in the generator itself; the front end (an emitted parser) keeps function-level ones
-		opt := weave.Options{Yields: true, StmtYields: d != "zzsim/frontend", SyncTypes: true, Stderr: true, MapRanges: true, Procs: true}
+		opt := weave.Options{Yields: true, StmtYields: d != "zzsim/frontend", SyncTypes: true, Stderr: true, MapRanges: true, Procs: true, Clock: true}
 		if err := rig.weaver.WeaveDir(filepath.Join(rig.wrepo, d), d, opt); err != nil {
 			return nil, infra("weave %s: %v", d, err)
 		}
